@@ -5,6 +5,7 @@
      Q <kind> <arg> ...          <- A <answer>
    Verdicts: ok | violation | mismatch | skip. *)
 open Model
+type string = Stdlib.String.t   (* the extracted Coq [string] type must not shadow OCaml's *)
 
 (* ---------- conversions between OCaml values and extracted datatypes ---------- *)
 let rec pos_of_int (i : int) : positive =
@@ -142,6 +143,22 @@ let store_of_string s =
                       | [k; v] -> (bytes_of_hex k, bytes_of_hex v)
                       | _ -> failwith "bad store") (split ',' s)
 
+(* ---------- device paths ---------- *)
+let hdr_of_string s =
+  match nlist_of_string s with
+  | [t; st; l0; l1] -> { h_type = t; h_sub = st; h_len0 = l0; h_len1 = l1 }
+  | _ -> failwith ("bad hdr " ^ s)
+let node_of_string s =
+  match String.split_on_char '|' s with
+  | ["P"; h; f; d] -> NPci (hdr_of_string h, n_of_string f, n_of_string d)
+  | ["A"; h; x; y] -> NAcpi (hdr_of_string h, bytes_of_hex x, bytes_of_hex y)
+  | ["H"; h; pn; st; sz; sg; pf; sty] ->
+      NHardDrive (hdr_of_string h, n_of_string pn, n_of_string st, n_of_string sz, bytes_of_hex sg, n_of_string pf, n_of_string sty)
+  | ["F"; h; p] -> NFilePath (hdr_of_string h, nlist_of_string p)
+  | ["W"; h; x] -> NFirmwareFile (hdr_of_string h, bytes_of_hex x)
+  | ["U"; h; p; i] -> NUsb (hdr_of_string h, n_of_string p, n_of_string i)
+  | _ -> failwith ("bad node " ^ s)
+
 (* ---------- dispatch ---------- *)
 let verdict b = if b then "ok" else "violation"
 
@@ -218,6 +235,21 @@ let run (op : string) (a : string list) : string list =
       if List.length ops <> List.length obs then ["skip"; "ops/obs length"] else
       let (ok, i) = run_store (bytes_of_hex dir) (store_of_string init) (List.combine ops obs) N0 in
       [verdict ok; string_of_n i]
+  (* C18 *)
+  | "boot_order", [bs; names] ->
+      [verdict (check_boot_order (bytes_of_hex bs) (List.map bytes_of_hex (split ',' names)))]
+  | "load_option", bs :: cls :: rest ->
+      let bs = bytes_of_hex bs in
+      let impl = (match cls, rest with
+        | "ok", [attrs; fpl; desc; nodes] ->
+            Some { lo_attrs = n_of_string attrs; lo_fpl_len = n_of_string fpl; lo_desc = nlist_of_string desc;
+                   lo_nodes = List.map node_of_string (split ';' nodes) }
+        | _ -> None) in
+      [verdict (check_load_option bs impl); s01 (load_option_decodes bs)]
+  | "hd_text", [pn; st; sz; sg; sty; text] ->
+      [verdict (check_hd_text (n_of_string pn) (n_of_string st) (n_of_string sz) (bytes_of_hex sg) (n_of_string sty)
+                  (bytes_of_hex text))]
+  | "file_text", [p; text] -> [verdict (check_file_text (nlist_of_string p) (nlist_of_string text))]
   | _ -> ["skip"; "unknown op " ^ op]
 
 let () =
